@@ -41,6 +41,19 @@ func (cw *CodeWriter) WriteRune(r rune) {
 	}
 }
 
+// WriteSignSeparator writes a space when the text written so far ends with the
+// sign character that next begins with: printed back to back, "- -x" would read
+// as "--x" and "+ ++x" as "++ +x".
+func (cw *CodeWriter) WriteSignSeparator(next string) {
+	if next == "" || (next[0] != '+' && next[0] != '-') {
+		return
+	}
+	cw.flushPending()
+	if written := cw.Builder.String(); len(written) > 0 && written[len(written)-1] == next[0] {
+		cw.WriteRune(' ')
+	}
+}
+
 // WriteSemi writes a semicolon if WriteSemicolons is true.
 func (cw *CodeWriter) WriteSemi() {
 	if !cw.PrettyPrint {
